@@ -260,6 +260,10 @@ class BaseClient:
         expected_codes = wrap_with_container(expected_codes)
         wait_codes = wrap_with_container(wait_codes)
         if command:
+            if "\r" in command or "\n" in command:
+                # rest of such a line would be sent (and handled, answered,
+                # logged) as a command of its own
+                raise ValueError("line break in command line")
             if censor_after:
                 # Censor the user's command
                 raw = command[:censor_after]
